@@ -622,7 +622,8 @@ pub fn exec(pool: &mut Pool, ev: &mut Value) {
                 set(ev, "out", json!(SKIP));
                 return;
             }
-            match guard(|| make_big(&kind, base, tail)) {
+            let fill = ev["fill"].as_i64().unwrap_or(0) == 1;
+            match guard(|| make_big(&kind, base, fill, tail)) {
                 Ok(Some(x)) => {
                     pool.objs.insert(o, x);
                     pool.big.insert(o, base);
